@@ -603,6 +603,10 @@ func scnSlots(o *Out, r *Rng, thorough bool) {
 		"2 S C1 C2 C3 C4 D1 C5 R5 D2 C6 R6",
 		"1 S C1 C2 C3 D1 C4 R4 D4 C5 R5",
 		"4 S C1 C2 C3 C4 X1 D3 M D4 D2 C5 C6 C7 C8 C9 R5 R9",
+		// the limit across a restart while the teardown of an old session is pending
+		"2 S C1 X1 P S C2 M R2 C3 C4 R3 R4",
+		"3 S C1 C2 X2 P S C3 C4 M R3 R4 C5 C6 R5 R6",
+		"1 S C1 X1 P S M C2 R2 C3 R3",
 	}
 	for _, f := range fixed {
 		o.Run("slots", f)
@@ -653,6 +657,10 @@ func scnLifecycle(o *Out, r *Rng, thorough bool) {
 		"2 S T1 P S E R1 C2 R2",
 		"3 S S C1 P P S S C2 R2 R1",
 		"2 S C1 X1 P M S C2 R2",
+		// a session whose teardown is still pending when the server is restarted
+		"2 S C1 X1 P S C2 M R2 C3 C4 R3 R4",
+		"3 S C1 C2 X2 P S C3 C4 M R3 R4 C5 C6 R5 R6",
+		"1 S C1 X1 P S M C2 R2 C3 R3",
 		"1 P C1 S C2 R2 P S P S C3 R3",
 	}
 	for _, f := range fixed {
